@@ -268,7 +268,7 @@ Instr(cp, code, ip, m) ==
                          IF \E j \in 1..ns : fd.scalarParams[j] = nm
                          THEN Norm(args[CHOOSE j \in 1..ns : fd.scalarParams[j] = nm])
                          ELSE [t |-> "aref", id |-> arefs[CHOOSE j \in 1..Len(fd.arrayParams) : fd.arrayParams[j] = nm]]]
-         IN IF st.fuel <= 0 \/ Len(st.fr) >= 6 THEN <<nx, BadM(m)>>
+         IN IF st.fuel <= 0 \/ Len(st.fr) >= 60 THEN <<nx, BadM(m)>>
             ELSE LET m1 == [PopN(m, ns) EXCEPT !.st = [st EXCEPT !.fr = Append(@, frame), !.fuel = @ - 1,
                                                                  !.fresh = @ + (Len(fd.arrayParams) - given)],
                                                 !.fn = A(1) + 1]
